@@ -19,7 +19,8 @@ RULE = ("exhaustive: all legal parameter-list shapes with <=2 positional-only, <
         "closure over a captured default; x a battery of ~40 call shapes derived from the signature (too few/exact/"
         "too many positionals, each name by keyword, duplicates, unknown keyword, positional-only by keyword, star "
         "and double-star expansion) x option combinations. Distinct by (shape, variant, options); non-trivial iff "
-        "the shape has at least one parameter.")
+        "the shape has at least one parameter."
+        ' Variant guard-return: bare returns taken or not depending on the bound arguments in a function whose last statement is a valued return.')
 ASSUMPTIONS = ["exception *types* are compared, not messages (they mention <lambda> in the translation)",
                "annotations are excluded from the signature comparison (the property excludes them)"]
 EXHAUSTIVE = {"quick": True, "thorough": True}
